@@ -130,6 +130,8 @@ func CheckC10(e *Env) int {
 	progs = append(progs, twinPackagesFamily()...)
 	// adapters between types that differ only in the order of their parts: accepted
 	progs = append(progs, permutedSignatureFamily()...)
+	// how a set variable is DECLARED does not matter either
+	progs = append(progs, multiNameSetSpecFamily()...)
 	results := RunPool(e, progs, PoolOpts{Execute: true, Name: "c10"})
 	byKey := map[key]*ProgResult{}
 	for _, pr := range results {
